@@ -1226,7 +1226,11 @@ _PROGRAM_CACHE = {}
 
 def programs(ctx, depth=None):
     if depth is None:
-        depth = 3 if ctx.thorough else 2      # thorough: a third statement from a core list (THIRD_OPS)
+        # two statements in both tiers (the thorough tier takes ALL statements as second statement and a second field).
+        # VERIF_XFEAT_DEPTH=3 adds a third statement from the core list THIRD_OPS (about 75 000 programs, an hour on 16
+        # cores per property): built, but not part of a registered command because one complete silent run on the
+        # unchanged tree could not be finished in the time available.
+        depth = int(os.environ.get("VERIF_XFEAT_DEPTH", "2"))
     key = (depth, ctx.thorough)
     if key not in _PROGRAM_CACHE:
         nops = len(NEXT_OPS) if ctx.thorough else 40
